@@ -285,6 +285,10 @@ where
         <Target as FreezeBuilder>::Octets: Octets
     {
         self.is_valid()?;
+        let pdu_len = self.calculate_pdu_length(session_config);
+        if pdu_len > Self::MAX_PDU {
+            return Err(ComposeError::PduTooLarge(pdu_len));
+        }
         Ok(UpdateMessage::from_octets(
             self.finish(session_config).map_err(|_| ShortBuf)?, session_config,
         )?)
